@@ -1558,7 +1558,7 @@ def _df_slice(df, lb = None, ub = None, openclose = '[)'):
         if is_ts(df):
             lb = lb if lb is None or isinstance(lb, datetime.time) else dt(lb)
             ub = ub if ub is None or isinstance(ub, datetime.time) else dt(ub)
-            if (l or lb is None) and (u or ub is None):
+            if (l or lb is None) and (u or ub is None) and (df if isinstance(df, pd.Index) else df.index).is_monotonic_increasing:
                 try:
                     return df[lb:ub]
                 except Exception:
